@@ -449,6 +449,49 @@ fn gen_ts(rng: &mut Rng, n: u64, tier: &str, emit: &mut dyn FnMut(Vec<String>)) 
         ("EpochSeconds", "1.4294967296"),
         ("EpochSeconds", "1.+99999999"),
         ("EpochSeconds", "1.+999999999"),
+        // signed texts (repair 4f99c94: an instant before 1970 is written with a leading `-`)
+        ("EpochSeconds", "-0"),
+        ("EpochSeconds", "-0.0"),
+        ("EpochSeconds", "-0.5"),
+        ("EpochSeconds", "-0.000000001"),
+        ("EpochSeconds", "-0.999999999"),
+        ("EpochSeconds", "-0.0000000001"),
+        ("EpochSeconds", "-1.5"),
+        ("EpochSeconds", "-1.000"),
+        ("EpochSeconds", "-1.1234567891"),
+        ("EpochSeconds", "-"),
+        ("EpochSeconds", "-."),
+        ("EpochSeconds", "-.5"),
+        ("EpochSeconds", "-1."),
+        ("EpochSeconds", "--1"),
+        ("EpochSeconds", "-+1"),
+        ("EpochSeconds", "+-1"),
+        ("EpochSeconds", "+1.5"),
+        ("EpochSeconds", "+"),
+        ("EpochSeconds", "-1.+5"),
+        ("EpochSeconds", "-1.-5"),
+        ("EpochSeconds", "- 1"),
+        ("EpochSeconds", "-1e3"),
+        ("EpochSeconds", "-00000000000000000000000000012.50"),
+        ("EpochSeconds", "-62135596800"),
+        ("EpochSeconds", "-62135596800.000"),
+        ("EpochSeconds", "-62135596799.999999999"),
+        ("EpochSeconds", "-62135596800.000000001"),
+        ("EpochSeconds", "-62135596801"),
+        ("EpochSeconds", "-377705116800"),
+        ("EpochSeconds", "-377705116800.0"),
+        ("EpochSeconds", "-377705116800.000000001"),
+        ("EpochSeconds", "-377705116799.999999999"),
+        ("EpochSeconds", "-377705116801"),
+        ("EpochSeconds", "-253402300800"),
+        ("EpochSeconds", "253402300800.0"),
+        ("EpochSeconds", "-9223372036854775807"),
+        ("EpochSeconds", "-9223372036854775807.999999999"),
+        ("EpochSeconds", "-9223372036854775808"),
+        ("EpochSeconds", "-18446744073709551615"),
+        ("EpochSeconds", "-18446744073709551616"),
+        ("EpochSeconds", "\u{2212}1"),
+        ("EpochSeconds", "-\u{661}"),
     ] {
         emit(vec!["ts-parse".into(), f.into(), hx(t.as_bytes())]);
     }
@@ -487,10 +530,11 @@ fn gen_ts(rng: &mut Rng, n: u64, tier: &str, emit: &mut dyn FnMut(Vec<String>)) 
             }
         }
     }
-    // the first 64 seconds after the epoch at every millisecond: where `secs as f64 + ms/1e3` could round twice
+    // the 64 seconds around the epoch at every millisecond: where `secs as f64 + ms/1e3` could round twice
+    // (finding F-dto-5, repaired by 4f99c94) and, before 1970, where the sign and the fraction meet (F-dto-4)
     let step = if tier == "thorough" { 1 } else { 13 };
-    for secs in 0..64i64 {
-        let mut ms = (secs % step) as u32;
+    for secs in -64..64i64 {
+        let mut ms = secs.rem_euclid(step) as u32;
         while ms < 1000 {
             emit(vec!["ts-roundtrip".into(), secs.to_string(), (ms * 1_000_000).to_string(), "0".into()]);
             ms += step as u32;
@@ -507,14 +551,32 @@ fn gen_ts(rng: &mut Rng, n: u64, tier: &str, emit: &mut dyn FnMut(Vec<String>)) 
         emit(vec!["ts-parse".into(), "HttpDate".into(), hx(h.as_bytes())]);
         // (3) epoch seconds text
         let secs = days_of(c.y, c.mo, c.d) * 86400 + c.h * 3600 + c.mi * 60 + c.s;
-        let e = match rng.below(8) {
+        // `secs` is negative for the years 1 … 1969: cases 0-4 write signed texts with and without fractions
+        let e = match rng.below(12) {
             0 => format!("{secs}"),
             1 => format!("{secs}.{:03}", c.ms),
-            2 => format!("{}.{}", secs.abs(), c.ms),
-            3 => format!("{}.{:09}", secs.abs(), rng.below(1_000_000_000)),
-            4 => format!("{}.{:0w$}", secs.abs(), rng.below(1000), w = rng.range(1, 11) as usize),
+            2 => format!("{secs}.{}", c.ms),
+            3 => format!("{secs}.{:09}", rng.below(1_000_000_000)),
+            4 => format!("{secs}.{:0w$}", rng.below(1000), w = rng.range(1, 11) as usize),
             5 => format!("{}", rng.next() >> rng.below(64)),
             6 => format!("{}.{}", rng.below(1 << 40), rng.next() >> rng.range(24, 63)),
+            7 => format!("{}.{}", secs.abs(), c.ms),
+            8 => format!("{}.{:09}", secs.abs(), rng.below(1_000_000_000)),
+            // a sign in front of any magnitude, fractions of 1 … 10 digits
+            9 => {
+                let sh = rng.range(20, 63);
+                let mag = rng.next() >> sh;
+                let frac = rng.below(1000);
+                let w = rng.range(1, 10) as usize;
+                format!("-{mag}.{frac:0w$}")
+            }
+            10 => {
+                let sign = rng.pick(&["-", "-", "-", "+", "--", "-+", "+-", ""]);
+                let bits = rng.range(1, 40);
+                let mag = rng.below(1u64 << bits);
+                let tail = rng.pick(&["", "", ".5", ".", ".0", ".000000001", ".0000000001", ".+5", ".-5", ".999999999"]);
+                format!("{sign}{mag}{tail}")
+            }
             _ => format!("{}", secs.abs()),
         };
         emit(vec!["ts-parse".into(), "EpochSeconds".into(), hx(e.as_bytes())]);
